@@ -229,3 +229,48 @@ Theorem C09_rbbook_maxlen_zero_commit_fails :
     [RbBook.OFail RbBook.EPruneOldestAboveEnd].
 Proof. exact RbBook_proofs.maxlen_zero_commit_fails. Qed.
 Print Assumptions C09_rbbook_maxlen_zero_commit_fails.
+
+(* ------------------------------------------------------------------------------------------ *)
+(* The prior value of a key written blind is fetched by the reverse-delta worker through the        *)
+(* asynchronous overflow reader (AsyncRead.v: beatree/ops/overflow.rs AsyncReader under ARBITRARY    *)
+(* schedules - requests are submitted in bursts, completions arrive in any order, page numbers      *)
+(* beyond the 15 of the leaf cell are learnt only from pages parsed in order).  For every layout    *)
+(* and every schedule the repaired reader never indexes a page number it does not know; on the      *)
+(* layout chunk writes it is never stuck; whenever it is done it holds exactly the value and has     *)
+(* requested exactly the value's pages in order.  The original submit panics on a schedule the      *)
+(* worker produces (defect N3).                                                                     *)
+From Nomt Require AsyncRead AsyncRead_proofs.
+
+Theorem C09_async_prior_never_panics : forall L evs, AsyncRead.run true L evs <> None.
+Proof. exact AsyncRead_proofs.guarded_never_panics. Qed.
+Print Assumptions C09_async_prior_never_panics.
+
+Theorem C09_async_prior_value : forall g L evs s,
+  AsyncRead.run g L evs = Some s -> AsyncRead.done L s = true ->
+  AsyncRead.val s = flat_map snd (AsyncRead.pgs L) /\
+  AsyncRead.asked s = firstn (AsyncRead.total L) (AsyncRead.known L (AsyncRead.total L)).
+Proof. exact AsyncRead_proofs.done_value. Qed.
+Print Assumptions C09_async_prior_value.
+
+Theorem C09_async_prior_progress : forall L evs s,
+  AsyncRead.wf_layout L -> AsyncRead.run true L evs = Some s -> AsyncRead.done L s = false ->
+  (exists i, i < AsyncRead.req s /\ AsyncRead.proc s <= i /\
+             existsb (Nat.eqb i) (AsyncRead.got s) = false) \/
+  (exists s', AsyncRead.submit true L s = AsyncRead.SOk s').
+Proof. exact AsyncRead_proofs.progress. Qed.
+Print Assumptions C09_async_prior_progress.
+
+Theorem C09_chunk_layout_wf : forall m pns bytes, 0 < m -> length pns = length bytes ->
+  AsyncRead.wf_layout (AsyncRead.chunk_layout m pns bytes).
+Proof. exact AsyncRead_proofs.chunk_layout_wf. Qed.
+Print Assumptions C09_chunk_layout_wf.
+
+Theorem C09_async_prior_unguarded_refuted :
+  AsyncRead.run false AsyncRead_proofs.ex_layout (repeat AsyncRead.ESubmit 16) = None /\
+  option_map (fun s => (AsyncRead.done AsyncRead_proofs.ex_layout s, AsyncRead.val s, AsyncRead.asked s))
+    (AsyncRead.run true AsyncRead_proofs.ex_layout
+       (repeat AsyncRead.ESubmit 16 ++ map AsyncRead.EComplete (rev (seq 0 15)) ++
+        [AsyncRead.ESubmit; AsyncRead.EComplete 15])) =
+  Some (true, map N.of_nat (seq 0 16), AsyncRead_proofs.ex_pns).
+Proof. exact AsyncRead_proofs.unguarded_refuted. Qed.
+Print Assumptions C09_async_prior_unguarded_refuted.
